@@ -352,18 +352,27 @@ type azBody struct {
 func (a *azBody) Read(p []byte) (int, error) {
 	n, err := a.r.Read(p)
 	if err == io.EOF && a.failAt {
-		return n, io.ErrUnexpectedEOF
+		err = io.ErrUnexpectedEOF
+	}
+	if err != nil {
+		// like a net/http response body: reading to the end (or into an
+		// error) releases the connection even without Close
+		a.release()
 	}
 	return n, err
 }
 
-func (a *azBody) Close() error {
+func (a *azBody) release() {
 	a.b.mu.Lock()
 	if !a.closed {
 		a.closed = true
 		a.b.readers--
 	}
 	a.b.mu.Unlock()
+}
+
+func (a *azBody) Close() error {
+	a.release()
 	return nil
 }
 
